@@ -220,7 +220,10 @@ def check(ctx):
                 k = i
         after = [e[1] for e in ev[k + 1:] if e[0] == "call"] if k is not None else []
         eff = [("clear" if callee_is(c2, "Vec::clear") else "push") for c2 in after if callee_is(c2, "Vec::clear", "Vec::push")]
-        want = {"Less": [], "Equal": ["push"], "Greater": ["clear", "push"]}[name]
+        want = {"Less": [], "Equal": ["push"], "Greater": ["clear", "push"]}.get(name)
+        if want is None:
+            ctx.bad("R08.2", "arm/%s/unclassified" % name, "a path through the comparison that is not one of the three Ordering arms", at)
+            continue
         ctx.check(eff == want, "R08.2", "arm/%s/effects" % name, "effects on winners: %s" % eff, at,
                   bad_detail="Ordering::%s arm performs %s on the winners vector, expected %s" % (name, eff, want))
         # pushed value is the loop candidate
